@@ -625,8 +625,18 @@ impl Check for C12 {
     fn assumptions(&self) -> Vec<String> {
         vec!["literal keys are numeric (width, value); the value handed to bv_lit comes from baa computations on canonical inputs".into()]
     }
+    fn miri_work(&self) -> Vec<WorkItem> {
+        vec![WorkItem { mode: "miri", count: 48 }]
+    }
     fn run_case(&self, sh: &mut Shard, case: &CaseId) {
         let mut rng = Rng::new(sh.case_seed());
+        if case.mode == "miri" {
+            // short histories with the structural oracle only (the interpreter is ~1000x slower)
+            if let Err(f) = self.history(sh, &mut rng, 250, 0) {
+                sh.violation(f.sig, f.detail, json!({}));
+            }
+            return;
+        }
         if case.mode == "directed" {
             // witness of the known finding: shl by a multiple of 64 on a multi-word value
             let mut ctx = Context::default();
